@@ -209,6 +209,17 @@ Example c10_example_error_passthrough :
   let s := run repaired (init false) [ESetCtx 1; EStartCons 0; EProceed 0 true; EResReturn 0 1 false 7; EStore 0; EConsStep 0; ERelSect 0] in
   cpcv (getc s 0) = CRet 0 7 false /\ nrefs s = 0.
 Proof. vm_compute. repeat split; reflexivity. Qed.
+(* the error comes with the empty value; the state is invalidated while ResolveWithReleased is still inside its own
+   Release (flag swapped, removeRef section pending): its callback is told "gone", the released callback fires once (at
+   once: the reference's flag is already set); the call then returns the error as such *)
+Example c10_example_error_empty_passthrough :
+  let s := run repaired (init false) [ESetCtx 1; EStartCons 1; EProceed 0 true; EResReturn 0 0 false 7; EStore 0; EConsStep 0] in
+  cpcv (getc s 0) = CRel 7 /\ ww_fired (getc s 0) = 0 /\ map rlast (refs s) = [Some (NRes 0 7)] /\
+  let s1 := step repaired s (ESetCtx 2) in
+  cpcv (getc s1 0) = CRel 7 /\ ww_fired (getc s1 0) = 1 /\ ww_firepc (getc s1 0) = Some RDone /\ map rlast (refs s1) = [Some NGone] /\
+  let s2 := step repaired s1 (ERelSect 0) in
+  cpcv (getc s2 0) = CRet 0 7 false /\ ww_fired (getc s2 0) = 1 /\ nrefs s2 = 0.
+Proof. vm_compute. repeat split; reflexivity. Qed.
 Example c10_example_cancel_passthrough :
   let s := run repaired (init false) [ESetCtx 1; EStartCons 1; EConsCancel 0; EConsStep 0; ERelSect 0] in
   cpcv (getc s 0) = CRet 0 1 false.
